@@ -38,7 +38,8 @@ func (b Bundle) Fragment(mtu int) (bs []Bundle, err error) {
 		return
 	}
 
-	for i := 0; i < payloadBlockLen; {
+	// The first iteration is always executed; a bundle with an empty payload results in itself, not in an empty list.
+	for i := 0; i == 0 || i < payloadBlockLen; {
 		var (
 			fragPrimaryBlock PrimaryBlock
 			primaryOverhead  int
